@@ -41,7 +41,37 @@ def gen_cases(seed, tier):
                 for q in (present[:1] + present[-1:]) if len(present) > 1 else present:
                     cases.append(dict(id="m%d" % len(cases), pkg=pkg, comp=comp, n=n, extra=extra, seed=s, idgap=idgap,
                                       ops=ops + [("corrupt", str(q))], unavailable=sorted(sub), corrupted=[q]))
+        # several packs recorded at ONE location (tools::concat + set_location), then the file at that location is
+        # replaced by one of them alone: the others are missing by identity although their location exists and is valid
+        if len(separate) >= 2:
+            groups = [tuple(separate)] + ([tuple(separate[:2]), tuple(separate[-2:])] if len(separate) > 2 else [])
+            for g in dict.fromkeys(groups):
+                for keep in dict.fromkeys((g[0], g[-1])):
+                    ops = [("group", ",".join(map(str, g)), "shared.jbk"), ("fileis", "shared.jbk", str(keep))]
+                    cases.append(dict(id="m%d" % len(cases), pkg=pkg, comp=comp, n=n, extra=extra, seed=s, idgap=idgap, ops=ops))
+                    cases.append(dict(id="m%d" % len(cases), pkg=pkg, comp=comp, n=n, extra=extra, seed=s, idgap=idgap,
+                                      ops=ops + [("corruptin", "shared.jbk", str(keep))]))
+            cases.append(dict(id="m%d" % len(cases), pkg=pkg, comp=comp, n=n, extra=extra, seed=s, idgap=idgap,
+                              ops=[("group", ",".join(map(str, separate)), "shared.jbk")]))      # nothing missing: reads as before
     return cases
+
+
+def derive(c):
+    """which packs a case makes unavailable / corrupts, from its ops"""
+    un, co, groups = set(), set(), {}
+    for op in c.get("ops", []):
+        if op[0] in ("remove", "dirat", "swap"):
+            un.add(int(op[1]))
+        elif op[0] == "corrupt":
+            co.add(int(op[1]))
+        elif op[0] == "group":
+            groups[op[2]] = dict(all=[int(x) for x in op[1].split(",")], keep=None)
+        elif op[0] == "fileis":
+            groups[op[1]]["keep"] = int(op[2])
+            un |= set(groups[op[1]]["all"]) - {int(op[2])}
+        elif op[0] == "corruptin":
+            co.add(groups[op[1]]["keep"])
+    return sorted(un), sorted(co)
 
 
 def run(tier, seed, replay=None):
@@ -54,10 +84,9 @@ def run(tier, seed, replay=None):
         return res.finish()
     cases = P.parse_replay(replay) if replay else gen_cases(seed, tier)
     for c in cases:
-        if "unavailable" not in c:
-            c["unavailable"] = sorted(set(int(op[1]) for op in c.get("ops", []) if op[0] in ("remove", "dirat", "swap")))
-        if "corrupted" not in c:
-            c["corrupted"] = sorted(set(int(op[1]) for op in c.get("ops", []) if op[0] == "corrupt"))
+        un, co = derive(c)
+        c.setdefault("unavailable", un)
+        c.setdefault("corrupted", co)
     rm = P.run_cases(res, cases, seed)
     if rm is None:
         return res.finish()
@@ -116,7 +145,7 @@ def run(tier, seed, replay=None):
             nontrivial.add((c["pkg"], tuple(c["ops"]), c["extra"], c["n"]))
     res.cov.update({
         "evaluations": len(cases), "distinct_nontrivial": len(nontrivial), "contents_expected_missing": nmissing,
-        "rule": "containers with 1..4 content packs (3 packagings); every/sampled subset of the separately stored content packs removed, replaced by a directory, or replaced by a different valid pack; "
+        "rule": "containers with 1..4 content packs (3 packagings); every/sampled subset of the separately stored content packs removed, replaced by a directory, or replaced by a different valid pack; several packs recorded at one shared location whose file then holds only one of them; "
                 "non-trivial = at least one pack made unavailable",
         "samples": [P.case_text(c, seed) for c in cases[1:3]],
         "disagreements_checked": dis, "exhaustive": False,
